@@ -1457,6 +1457,10 @@ func (a *align) MaskUnique(refseq string, maskreplace string) (err error) {
 //   - total: The total number of sequences taken into account at each site (not always the number
 //     of sequences in the alignment if ignoreGaps or ignoreNs)
 func (a *align) MaxCharStats(ignoreGaps, ignoreNs bool) (out []uint8, occur []int, total []int) {
+	if a.Length() < 0 {
+		// No sequence in the alignment (length -1): nothing to compute
+		return []uint8{}, []int{}, []int{}
+	}
 	out = make([]uint8, a.Length())
 	occur = make([]int, a.Length())
 	total = make([]int, a.Length())
